@@ -66,13 +66,19 @@ def persistent(mbx):
 class Model:
     name = 'c12'
 
-    def __init__(self, variant='examine-inbox', observers=0) -> None:
-        self.variant = variant
-        self.observers = observers
-        self.params = {'variant': variant, 'observers': observers}
+    def __init__(self, variant='examine-inbox', observers=0,
+                 via_rw=False) -> None:
+        # via_rw: the connection enters the read-only selection straight
+        # from a read-write one (SELECT Sent, no CLOSE in between)
+        self.via_rw = via_rw
+        self.params = {'variant': variant, 'observers': observers,
+                       'via_rw': via_rw}
         self.box = 'INBOX' if variant == 'examine-inbox' else 'Trash'
         cmds = build_cmds(b'Sent', b'INBOX' if variant == 'examine-inbox'
                           else None)
+        self._examine = variant == 'examine-inbox'
+        self.variant = variant + ('+rw' if via_rw else '')
+        self.observers = observers
         self._alpha = [{'name': c.decode('latin1')[:60], 'line': c,
                         'kind': k} for c, k in cmds]
         self._alpha.append({'name': 'RE-ENTER', 'line': None,
@@ -92,8 +98,7 @@ class Model:
         return self._alpha
 
     def _select_line(self):
-        return b'EXAMINE INBOX' if self.variant == 'examine-inbox' \
-            else b'SELECT Trash'
+        return b'EXAMINE INBOX' if self._examine else b'SELECT Trash'
 
     def new(self):
         w = DictWorld(demo_data=True, users={})
@@ -119,6 +124,8 @@ class Model:
         ctx.extra['obs'] = obs
         r = ctx.connect()
         assert ctx.do(r, b'LOGIN demouser demopass').cond == 'OK'
+        if self.via_rw:
+            assert ctx.do(r, b'SELECT Sent').cond == 'OK'
         st = ctx.do(r, self._select_line())
         assert st.cond == 'OK' and st.tagged.code == b'READ-ONLY', st.raw
         ctx.extra['r'] = r
@@ -153,7 +160,7 @@ class Model:
                     out.append(i)
             elif k == 'self-append':
                 if ctx.extra['delivered'] < 2 and self.box == 'INBOX' \
-                        and self.variant == 'examine-inbox' \
+                        and self._examine \
                         and not ctx.extra['self_done']:
                     out.append(i)
             elif k == 'reenter':
@@ -202,6 +209,8 @@ class Model:
         before = persistent(self._mbx(ctx))
         trash_before = persistent(self._mbx(ctx, 'Trash'))
         if k == 'reenter':
+            if self.via_rw:
+                ctx.do(r, b'SELECT Sent')
             st = ctx.do(r, self._select_line())
             ctx.extra['in'] = st.cond == 'OK'
         elif k == 'idle':
@@ -323,21 +332,23 @@ class Model:
 def run(*, tier, seed, jobs, progress, opts):
     t0 = time.perf_counter()
     depth = int(opts.get('depth', 2 if tier == 'quick' else 3))
-    plans = [('examine-inbox', 0), ('examine-inbox', 1), ('select-trash', 0)]
+    plans = [('examine-inbox', 0), ('examine-inbox', 1), ('select-trash', 0),
+             ('examine-inbox', 0, True), ('select-trash', 0, True)]
     if tier != 'quick':
         plans.append(('select-trash', 1))
+        plans.append(('examine-inbox', 1, True))
     violations = []
     cov = {'plans': [], 'states': 0, 'transitions': 0,
            'traces_validated_against_impl': 0, 'samples': []}
-    for variant, obs in plans:
-        m = Model(variant, obs)
+    for variant, obs, *rest in plans:
+        m = Model(variant, obs, *rest)
         m.d0()
         res = bfs(m, depth, jobs=jobs, seed=seed, progress=progress)
         if res.errors:
             print(res.errors[0])
             raise RuntimeError('harness error during exploration')
         c = res.coverage(m)
-        cov['plans'].append({'variant': variant, 'observers': obs,
+        cov['plans'].append({'variant': m.variant, 'observers': obs,
                              'depth': depth, **{k: c[k] for k in (
                                  'states', 'transitions', 'depth_completed',
                                  'frontier_sizes', 'state_cap_hit',
